@@ -32,3 +32,6 @@ package inproc
 //@
 //@ func (*inproc).Close$1
 //@   may_close p.closeq once
+//@
+//@ func (*listener).Accept
+//@   before call:Unlock#2 assert called("Broadcast") && !called("Signal")
